@@ -28,7 +28,10 @@ namespace rkcommon {
           fcn(taskIndex);
         }
 #elif defined(RKCOMMON_TASKING_INTERNAL)
-        detail::parallel_for_internal(nTasks, std::forward<TASK_T>(fcn));
+        // the enkiTS task set size is an unsigned 32-bit value: a count <= 0
+        // must not reach it (a negative count would be taken for a huge one)
+        if (nTasks > 0)
+          detail::parallel_for_internal(nTasks, std::forward<TASK_T>(fcn));
 #else // Debug (no tasking system)
         for (INDEX_T taskIndex = 0; taskIndex < nTasks; ++taskIndex) {
           fcn(taskIndex);
